@@ -11,7 +11,7 @@ from ..isa import ISA
 from ..origin import Origin
 from ..linnorm import lin, NotLinear
 from .shared import (rule_alias_single_assignment, rule_loop_labels, fn_ctx, live_ids, guard_atoms,
-                     implied_by_guards, handler_functions, negation_flags)
+                     implied_by_guards, handler_functions, negation_flags, GEN_CLASS)
 
 CMP = {"==": "eq", "!=": "ne", "<": "lt", "<=": "le", ">": "gt", ">=": "ge"}
 INV = {"==": "!=", "!=": "==", "<": ">=", ">=": "<", "<=": ">", ">": "<="}
@@ -77,6 +77,12 @@ def run(repo: Repo, chk: Check):
                       "nested constructs read their own entry (shared with R05.g)", floor=1)
     from .shared import rule_stack_balance
     chk.guarded(rule_stack_balance, repo, chk, "R01.o")
+    chk.rule("R01.p", "the gather pass emits the fragment of every child once: a child that gather_code visits explicitly after the loop over all "
+                      "children was excluded from that loop (handle_node put it into special_nodes for the same node type)", floor=1)
+    chk.guarded(r01p, repo, chk)
+    chk.rule("R01.q", "a conditional expression whose arms are both evaluated before the select must not run user code in an arm: the lowering is "
+                      "used only for arms without calls, or the arms are compiled into branches", floor=1)
+    chk.guarded(r01q, repo, chk)
     from .c03 import fold_table_rows
     chk.guarded(fold_table_rows, repo, chk, "R01.j", "R01.j")
 
@@ -834,3 +840,114 @@ def r01m(repo, chk):
             chk.judge("R01.m", f"generate_code:{q}:jump is attached to the {nt.lower()} statement", ok,
                       f"the jump is added to {detail}: that is an enclosing statement of the loop body, whose own code is emitted before its sub-statements — "
                       f"in 'if c: effect(); {nt.lower()}' the jump runs before effect()", {"receiver": detail}, s.where())
+
+
+# ---------------------------------------------------------------------- R01.p
+def _type_names(test, var="node"):
+    """isinstance(node, nodes.T) / isinstance(node, (nodes.A, nodes.B)) -> {'T'} ; else None"""
+    if isinstance(test, ast.Call) and norm(test.func) == "isinstance" and len(test.args) == 2 and norm(test.args[0]) == var:
+        t = test.args[1]
+        elts = t.elts if isinstance(t, ast.Tuple) else [t]
+        return {e.attr if isinstance(e, ast.Attribute) else norm(e) for e in elts}
+    return None
+
+
+def _visited_fields(stmts, var="node"):
+    """fields F such that the statements call self._visit_node(node.F) or loop 'for c in node.F: self._visit_node(c)'"""
+    out = set()
+    for st in stmts:
+        for c in ast.walk(st):
+            if isinstance(c, ast.Call) and norm(c.func) == "self._visit_node" and c.args:
+                a = c.args[0]
+                if isinstance(a, ast.Attribute) and norm(a.value) == var:
+                    out.add(a.attr)
+                elif isinstance(a, ast.Name):
+                    p = c
+                    while p is not None and not (isinstance(p, ast.For) and isinstance(p.target, ast.Name) and p.target.id == a.id):
+                        p = getattr(p, "parent", None)
+                    if p is not None and isinstance(p.iter, ast.Attribute) and norm(p.iter.value) == var:
+                        out.add(p.iter.attr)
+    return out
+
+
+def _excluded_fields(stmts, var="node"):
+    """fields F such that the statements do special_nodes.add(node.F) or add every element of node.F"""
+    out = set()
+    for st in stmts:
+        for c in ast.walk(st):
+            if isinstance(c, ast.Call) and isinstance(c.func, ast.Attribute) and c.func.attr in ("add", "update") and "special" in norm(c.func.value) and c.args:
+                a = c.args[0]
+                if isinstance(a, ast.Attribute) and norm(a.value) == var:
+                    out.add(a.attr)
+                elif isinstance(a, ast.Name):
+                    p = c
+                    while p is not None and not (isinstance(p, ast.For) and isinstance(p.target, ast.Name) and p.target.id == a.id):
+                        p = getattr(p, "parent", None)
+                    if p is not None and isinstance(p.iter, ast.Attribute) and norm(p.iter.value) == var:
+                        out.add(p.iter.attr)
+    return out
+
+
+def r01p(repo, chk, R="R01.p"):
+    g = repo.mod("generate_code")
+    gc = g.func("CompilerPassGatherCode.gather_code")
+    hn = g.func("CompilerPassGatherCode.handle_node")
+    chk.saw("generate_code", gc.qual)
+    chk.saw("generate_code", hn.qual)
+    # the loop over all children, skipping special_nodes
+    loops = [lp for lp in ast.walk(gc) if isinstance(lp, ast.For) and "get_children" in norm(lp.iter)]
+    if len(loops) != 1:
+        raise AnalysisError("gather_code: the loop over all children of the node was not found")
+    skip = any(isinstance(t, ast.If) and "special" in norm(t.test) for t in ast.walk(loops[0]))
+    if not skip:
+        raise AnalysisError("gather_code: the children loop does not consult the set of specially handled nodes")
+    excluded = {}
+    for i in ast.walk(hn):
+        if isinstance(i, ast.If):
+            ts = _type_names(i.test)
+            if ts:
+                for t_ in ts:
+                    excluded.setdefault(t_, set()).update(_excluded_fields(i.body))
+    # 'if hasattr(node, "test")': every type with a test
+    generic = set()
+    for i in ast.walk(hn):
+        if isinstance(i, ast.If) and isinstance(i.test, ast.Call) and norm(i.test.func) == "hasattr" and len(i.test.args) == 2 and isinstance(i.test.args[1], ast.Constant):
+            generic |= _excluded_fields(i.body)
+    n = 0
+    for i in ast.walk(gc):
+        if isinstance(i, ast.If) and not any(x is i for lp in loops for x in ast.walk(lp)):
+            ts = _type_names(i.test)
+            if not ts:
+                continue
+            for f in sorted(_visited_fields(i.body)):
+                for t_ in sorted(ts):
+                    n += 1
+                    ok = f in excluded.get(t_, set()) or f in generic
+                    chk.judge(R, f"generate_code:gather_code:{t_}.{f} is visited once", ok,
+                              f"gather_code visits node.{f} of a nodes.{t_} explicitly, but handle_node does not put it into special_nodes for that type: the loop over all "
+                              f"children has already visited it, its code is emitted twice (a call in the else arm of a conditional expression runs twice)",
+                              {"excluded_for_type": sorted(excluded.get(t_, set()))}, f"{g.path}:{i.lineno} in {gc.qual}")
+    if n == 0:
+        raise AnalysisError("gather_code: no explicit late visit of a child found (expected at least the else part of nodes.If)")
+
+
+# ---------------------------------------------------------------------- R01.q
+def r01q(repo, chk, R="R01.q"):
+    g = repo.mod("generate_code")
+    hs = repo.handlers()
+    if "IfExp" not in hs:
+        raise AnalysisError("no handler registered for nodes.IfExp")
+    fn = g.func(f"{GEN_CLASS}.{hs['IfExp']}")
+    chk.saw("generate_code", fn.qual)
+    cfg, rd = fn_ctx(fn)
+    sel = [s for s in collect_sites(repo, ["generate_code"]) if s.fn is fn and s.opcodes is not TOP and "select" in s.opcodes]
+    if not sel:
+        chk.ok(R, "generate_code:handle_ifexp:no eager select lowering", None)
+        return
+    for s in sel:
+        ids = live_ids(cfg, s.call)
+        atoms = guard_atoms(cfg, ids[0]) if ids else []
+        guarded = any("Call" in norm(t) or "side_effect" in norm(t) or "is_constant" in norm(t) or "is_pure" in norm(t) for t, p in atoms)
+        chk.judge(R, "generate_code:handle_ifexp:both arms are evaluated only when neither runs user code", guarded,
+                  "'a if c else b' is lowered to 'select' after compiling BOTH arms unconditionally: an arm that calls a user function (device writes, counters) is executed "
+                  "also when the condition selects the other arm, which the Python source does not do", {"guards": [norm(t)[:60] for t, p in atoms]}, s.where())
